@@ -2,11 +2,16 @@
 
 use crate::report::Ctx;
 
+pub mod c04;
+pub mod c05;
 pub mod c08;
+pub mod common;
 pub mod c17;
 
 pub fn run(ctx: &Ctx) -> i32 {
     match ctx.prop.as_str() {
+        "C04" => c04::run(ctx),
+        "C05" => c05::run(ctx),
         "C08" => c08::run(ctx),
         "C17" => c17::run(ctx),
         other => {
